@@ -43,7 +43,8 @@ def plan(tier, seed):
 
 
 def gen_case(rng, ctx):
-    kind = rng.choice(["int", "bigint", "str", "intlike", "mixed_str", "mixed_str", "int_and_str", "digits_plus_word"])
+    kind = rng.choice(["int", "bigint", "str", "intlike", "mixed_str", "mixed_str", "int_and_str", "digits_plus_word", "almost_int",
+                       "negint"])
     n = rng.randint(2, 8)
     _, names = gen.element_names(rng, n, kind)
     cls, ds = gen.dataset(rng, classes="D2 D3 D3 D4 D4 D6 D7", names=names, n=n, mmax=6)
